@@ -535,7 +535,26 @@ def checkpoint_rules(chk, S, r5):
 
 
 # ---------------------------------------------------------------------------
-def zone_rules(chk, S, r6):
+class _NullRule:
+    """Swallows obligations (used when another check borrows only part of what a rule function decides)."""
+
+    def require(self, *a, **k):
+        return None
+
+    ok = fail = unknown = require
+
+
+class _NullCheck:
+    def sample(self, *a, **k):
+        return None
+
+
+def zero_length_interpolation_rules(S, rule):
+    """C05's clause "checkpoints separated by less than eps": the obligations of zone_rules that concern the length of the interpolating transition."""
+    zone_rules(_NullCheck(), S, _NullRule(), zero_len_rule=rule)
+
+
+def zone_rules(chk, S, r6, zero_len_rule=None):
     """Interpolation brackets.  Times are terms; facts are difference bounds in units of eps."""
     eps = A("eps")
     for sq in sorted(c.qualname for c in S.p.subclasses(SOLVERS + ".ProbabilisticSolver")):
@@ -558,6 +577,7 @@ def zone_rules(chk, S, r6):
         at = call(it, method(it, loop, "interp_at_t1"), (s, tn))
         S.absorb(it)
         cfg = {"solver": sq.rsplit(".", 1)[1]}
+        where = "probdiffeq/_ivpsolve/solvers_via_adaptive_steps.py"
         for nm, o in (("interp_beyond_t1", beyond), ("interp_at_t1", at)):
             if not (isinstance(o, (tuple, list)) and len(o) == 2 and isinstance(o[1], Rec) and isinstance(o[0], Rec)):
                 raise AnalysisError(f"RejectionLoop.{nm} with {sq}: unexpected result shape {T.show(o, 2)}")
@@ -605,7 +625,15 @@ def zone_rules(chk, S, r6):
             z.lt_eps("n", "s")
             if z.infeasible():
                 r6.ok(f"bracket in interp_beyond_t1 after {cname}", "arm infeasible for states built by this constructor (guards contradict)", config=cfg)
+                if zero_len_rule is not None:
+                    zero_len_rule.ok(f"{cfg['solver']}: interpolation length in interp_beyond_t1 after {cname}", "arm infeasible for states built by this constructor", where, cfg)
                 continue
+            if zero_len_rule is not None:
+                # The transition interp_from -> checkpoint has dt = t_next - interp_from.t, and the prior's preconditioner holds dt^-k: a zero-length transition is
+                # 0 * inf.  Save-at grids are non-decreasing, and the statement's quantifier includes checkpoints closer than eps, equal ones too.
+                zero_len_rule.require(z.proves_lt("i", "n"), f"{cfg['solver']}: interpolation length in interp_beyond_t1 after {cname}", "interp_from.t < t_next: the interpolating transition has positive length",
+                                      f"for a state built by {cname} only interp_from.t <= t_next follows (t_k <= t_next, guard t_next + eps < step_from.t): a checkpoint repeated inside one step "
+                                      "(t_next = t_k) interpolates over dt = 0, where the preconditioner dt^-k is infinite and the reported marginal (and a smoother's backward factor) is NaN", where, cfg)
             ok = z.proves_le("i", "n") and z.proves_lt("n", "s")
             r6.require(ok, f"bracket in interp_beyond_t1 after {cname}", "interp_from.t <= t_next < step_from.t",
                        f"cannot derive interp_from.t <= t_next < step_from.t for a state built by {cname}", config=cfg)
